@@ -141,7 +141,7 @@ def run(tier, seed, replay=None):
         ref = f(torch.tensor(list(itertools.product(*[range(n_) for n_ in N])), dtype=torch.int64)).reshape(N)
         if list(x.N) != N: V.fail("dmrg_cross: result has shape %s" % list(x.N), desc); continue
         err = float((x.full() - ref).norm() / ref.norm())
-        if err > 100 * eps + 1e-9:
+        if not (err <= 100 * eps + 1e-9):
             V.fail("dmrg_cross: accuracy %s target" % kind, dict(desc, rel_err=err, ranks=[int(r) for r in x.R]))
     # ---- functions whose values are not in the working dtype (integer-valued functions computed from the int64 index matrix, float32 tables, a
     # boolean indicator) and the documented dtype= option: the values are converted, the tensor of function values is still what is approximated
@@ -167,7 +167,7 @@ def run(tier, seed, replay=None):
         ref = fo(torch.tensor(list(itertools.product(*[range(n_) for n_ in N])), dtype=torch.int64)).reshape(N).to(torch.float64)
         if list(x.N) != N: V.fail("dmrg_cross: result has shape %s" % list(x.N), desc); continue
         err = float((x.full().to(torch.float64) - ref).norm() / ref.norm())
-        if err > 100 * eps + 1e-9: V.fail("dmrg_cross: accuracy [function values %s]" % kd, dict(desc, rel_err=err, ranks=[int(r) for r in x.R]))
+        if not (err <= 100 * eps + 1e-9): V.fail("dmrg_cross: accuracy [function values %s]" % kd, dict(desc, rel_err=err, ranks=[int(r) for r in x.R]))
         dist["function values " + kd] = dist.get("function values " + kd, 0) + 1
     # ---- maxvol is an oracle of the model (any pivots); what the code needs from it is a NONSINGULAR start: on matrices with zero rows (indicator /
     # sparse data) of full column rank the returned rows must be independent - and the call must return
@@ -198,7 +198,7 @@ def run(tier, seed, replay=None):
             V.fail("dmrg_cross raises %s [nswp=%d]" % (type(ex).__name__, nsw), dict(desc, exc=str(ex)[:200])); continue
         ref = f0(torch.tensor(list(itertools.product(*[range(n_) for n_ in N])), dtype=torch.int64)).reshape(N)
         err = float((x.full() - ref).norm() / ref.norm()) if list(x.N) == N else float("inf")
-        if err > 100 * eps + 1e-9: V.fail("dmrg_cross: accuracy with a sweep budget of %d" % nsw, dict(desc, rel_err=err, ranks=[int(r) for r in x.R]))
+        if not (err <= 100 * eps + 1e-9): V.fail("dmrg_cross: accuracy with a sweep budget of %d" % nsw, dict(desc, rel_err=err, ranks=[int(r) for r in x.R]))
         dist["nswp=%d" % nsw] = dist.get("nswp=%d" % nsw, 0) + 1
     # ---- function_interpolate: values handed to the function are entries of the argument tensors
     for i in range(n // 2):
@@ -234,11 +234,11 @@ def run(tier, seed, replay=None):
             n_mats += 1; n_rows += int(vals.shape[0])
             if vals.dim() != 2 or vals.shape[1] != nargs: okv = False; break
             dmin = torch.cdist(vals, table, compute_mode='donot_use_mm_for_euclid_dist').min(1).values
-            if float(dmin.max()) > 1e-9 * (1 + float(table.abs().max())): okv = False; break
+            if not (float(dmin.max()) <= 1e-9 * (1 + float(table.abs().max()))): okv = False; break
         if not okv: V.fail("function_interpolate: a value handed to the function is not an entry of the argument tensors", desc); continue
         ref = g(fulls[0]) if nargs == 1 else g(table).reshape(N)
         err = float((y.full() - ref).norm() / ref.norm())
-        if list(y.N) != N or err > 100 * eps + 1e-9:
+        if list(y.N) != N or not (err <= 100 * eps + 1e-9):
             V.fail("function_interpolate: accuracy", dict(desc, rel_err=err, ranks=[int(r) for r in y.R]))
     n_coq = 0
     if ok_make and coq_cases:
